@@ -45,7 +45,8 @@ class C11(Prop):
             "close after phase 1 / RST (SO_LINGER 0) after phase 1 / late joiner; 0-4 describes before the first connect and 0-2 between "
             "the phases (now and then re-describing a name with another type); 1-3 emitting threads with counter/gauge/histogram operations, labels and numbered values, paced so that at most "
             "buffer_size channel messages are in flight; a scripted fault plan (short write / EINTR / EAGAIN) for the first conn.write calls; "
-            "non-trivial = at least one client and one emission; distinct = distinct scenario descriptions")
+            "non-trivial = at least one client and one emission; distinct = distinct scenario descriptions; plus a free-running stress engine "
+            "(3 instances x 10 s quick, 6 x 40 s thorough: 1-3 clients, 1-3 emitters with a 0-31 x spin ns pause, rounds within the buffer)")
     design_ref = "DESIGN.md 4 C11"
     technique = ("Coq proof: invariants of a transcribed model of run_transport/drive_connection/State for all event sequences, write-result oracles and limits; "
                  "trace validation: real exporter on real sockets, hook log replayed through the model, streams and counters compared")
@@ -56,7 +57,9 @@ class C11(Prop):
                   "all of them if drop-oldest never fired (C11_prefix_metadata_then_metrics_in_order); client_count = |clients| and should_send = (|clients| > 0) "
                   "(C11_client_count_exact); start-up reaches the loop for every limit (C11_starts_for_every_limit); the Spec decoder inverts the modelled prost encoding of Metadata and Metric events for all names, "
                   "label lists, timestamps, operations and values (C11_fields/metadata/metric_roundtrip: name, labels, operation kind and value intact); a stream of the proved shape passes the boolean "
-                  "stream check (C11_stream_log_ok_reflect) and the model's own run passes spec_ok (C11_spec_ok_on_model, see note). The five defects are refuted on the pre-fix "
+                  "stream check (C11_stream_log_ok_reflect) and the model's own run passes spec_ok (C11_spec_ok_on_model, see note). "
+                  "In a separate small interleaving model of push_metric / waker / receive loop, waking after every try_send never leaves a message in the channel with the transport parked "
+                  "(C11_wake_always_never_stuck); the wake-only-if-empty variant does (C11_wake_if_was_empty_gets_stuck). The five defects are refuted on the pre-fix "
                   "settings of the model (C11_*_refuted_before_fix). Trace validation ties the model to /repo: every run replays the hook log of real exporters "
                   "on real sockets through the model and compares per-client byte streams and boundary counters; spec_ok is evaluated on the streams the clients read.")
     level_note = ("C11_spec_ok_on_model (the model's own run passes spec_ok, all clauses) is proved under case_wf, which contains one named hypothesis, still_connected: every client "
@@ -64,8 +67,10 @@ class C11(Prop):
                   "(no invariant was proved for removed clients); they are validated per run only (prefix agreement with the model, spec_ok on the bytes read). The hypotheses are shown "
                   "satisfiable on a concrete case (C11_spec_ok_on_model_example). harness_ok (what the exporter drained from its channel = what the harness described and emitted: the end-to-end "
                   "delivery clause) is a hypothesis of that theorem and is evaluated on every run, not proved: it depends on the channel and the should_send gate seen from other threads, "
-                  "which are not modelled (the Metric encoding is modelled, proved invertible and compared byte for byte per run). `overflowed` is a ghost flag set where drop-oldest "
-                  "discards (to_drain > 0). Trusted: Coq kernel; hand-written model; cfg(metrics_verif) hooks (event log, socket wrapper that scripts some write results).")
+                  "which are not modelled (the Metric encoding is modelled, proved invertible and compared byte for byte per run). The emitter-to-transport wake-up handshake is covered on the code by test only: a free-running engine "
+                  "(real exporter thread, reading clients, emitters paced at about the drain rate, rounds within the buffer; a stall = nothing arrives for 15 s while emissions are outstanding) "
+                  "samples schedules and proves nothing; the Wake.v model of the handshake is not tied to the code by trace validation (emitter-side steps are not hooked). "
+                  "`overflowed` is a ghost flag set where drop-oldest discards (to_drain > 0). Trusted: Coq kernel; hand-written model; cfg(metrics_verif) hooks (event log, socket wrapper that scripts some write results).")
     assumptions = [
         "mio readiness, kernel socket buffers and the crossbeam channel are the runtime's (exercised, not modelled); the harness paces emissions so that at most buffer_size channel messages are in flight",
         "EINTR and part of the EAGAIN / short-write results of conn.write are injected by the cfg(metrics_verif) socket wrapper (a non-blocking loopback socket does not return EINTR on Linux); the rest come from the kernel",
@@ -339,6 +344,64 @@ class C11(Prop):
         return dict(served=o["served"], quiet=o["quiet"], panic=o["panic"], nudges=o["nudges"],
                     clients=[[k, p, cut(h)] for k, p, h in o["clients"]],
                     log=[cut(e) for e in o["log"][:400]])
+
+    # ------------------------------------------------------------------ free-running stress engine
+    def stress_lines(self, tier, rng):
+        """parameter lines for the driver's `stress` mode: real exporter, reading clients, emitters paced at about the
+        transport's drain rate, rounds that stay within the buffer"""
+        secs = 10 if tier == "quick" else 40
+        base = [dict(limit=4096, clients=1, emitters=1, per=300, spin=250),
+                dict(limit=1024, clients=2, emitters=1, per=100, spin=rng.pick([80, 120, 200])),
+                dict(limit=None, clients=1, emitters=2, per=150, spin=rng.pick([150, 300, 500]))]
+        if tier != "quick":
+            base += [dict(limit=64, clients=1, emitters=1, per=40, spin=rng.pick([100, 250, 600])),
+                     dict(limit=8, clients=2, emitters=1, per=6, spin=rng.pick([250, 1000])),
+                     dict(limit=4096, clients=3, emitters=3, per=200, spin=rng.pick([100, 400]))]
+        for b in base:
+            b["secs"] = secs
+            b["wait"] = 15000
+        return base
+
+    def extra_checks(self, ctx):
+        params = self.stress_lines(ctx["tier"], ctx["rng"])
+
+        def line(b):
+            return "stress " + " ".join("%s=%s" % (k, "none" if v is None else v) for k, v in b.items())
+
+        def one(b):
+            rc, outs, err = core.run_impl(ctx["binpath"], [line(b)], timeout=600)
+            if rc != 0 or len(outs) != 1:
+                raise MachineryBroken("C11 stress engine: rc=%s out=%r stderr=%s" % (rc, outs, err[-2000:]))
+            return b, outs[0]
+        violations = []
+        rounds = emitted = 0
+        with ThreadPoolExecutor(max_workers=len(params)) as ex:
+            results = list(ex.map(one, params))
+        for b, out in results:
+            kv = dict(t.split("=", 1) for t in out.split() if "=" in t)
+            if kv.get("ok") == "1":
+                rounds += int(kv.get("rounds", 0))
+                emitted += int(kv.get("emitted", 0))
+                continue
+            if "error" in kv or kv.get("kind") in ("connect", "not-accepted"):
+                raise MachineryBroken("C11 stress engine could not start: %s" % out)
+            if kv.get("kind") == "stall":
+                desc = ("free-running engine (samples schedules): with a client connected and emission within the buffer, delivery stalled: "
+                        "%s of %s emitted metrics received and then nothing for %s ms; first missing metric %s (round %s)" % (
+                            kv.get("received"), kv.get("emitted"), kv.get("waited_ms"), kv.get("first_missing"), kv.get("round")))
+            else:
+                desc = "free-running engine (samples schedules): a client's stream is not the emitted sequence: %s (round %s)" % (
+                    kv.get("detail", out), kv.get("round"))
+            violations.append(("stress", desc, dict(engine="free-running emitter vs transport thread", parameters=b, driver_line=line(b),
+                                                    driver_output=out, first_missing=kv.get("first_missing"), seed=ctx["seed"])))
+            break
+        ctx["coverage"].update({
+            "stress_engine": "free-running: real exporter thread, reading clients, emitters paced at about the drain rate, rounds within the buffer; "
+                             "judged by the delivery clause; samples schedules, proves nothing",
+            "stress_instances": len(params), "stress_rounds": rounds, "stress_metrics_emitted": emitted,
+            "stress_seconds_each": params[0]["secs"], "stress_stall_wait_ms": params[0]["wait"],
+        })
+        return violations
 
     def signature(self, c, out):
         if not c["clients"] or not any(t[3] + t[4] for t in c["threads"]):
